@@ -90,6 +90,89 @@ theorem subBif_ok (m : Manager) (i n : Nat) (h : n ≤ cnt m i) :
   · simp only [subBif, h, if_true]
 
 
+/-! ### the loss time threshold of a path only changes with an RTT sample -/
+
+/-- `loss_time_threshold()` of `path`'s estimator -/
+def ltt (m : Manager) (path : Nat) : Nat := Rtt.lossTimeThreshold (m.paths path).rtt
+
+theorem ltt_setPath_same (ps : Nat → PathState) (i : Nat) (p : PathState)
+    (h : Rtt.lossTimeThreshold p.rtt = Rtt.lossTimeThreshold (ps i).rtt) (path : Nat) :
+    Rtt.lossTimeThreshold (setPath ps i p path).rtt = Rtt.lossTimeThreshold (ps path).rtt := by
+  simp only [setPath]
+  split
+  · rename_i e; subst e; exact h
+  · rfl
+
+theorem ltt_onPersistentCongestion (r : Rtt.RttEstimator) :
+    Rtt.lossTimeThreshold (Rtt.onPersistentCongestion r) = Rtt.lossTimeThreshold r := rfl
+
+theorem ltt_subBif (m : Manager) (i n path : Nat) : ltt (subBif m i n) path = ltt m path := by
+  simp only [ltt, subBif]
+  split
+  · dsimp only
+    refine ltt_setPath_same m.paths i _ ?_ path
+    rfl
+  · dsimp only
+    refine ltt_setPath_same m.paths i _ ?_ path
+    rfl
+
+/-- the persistent-congestion tail of `lostOne` -/
+theorem ltt_pcTail (m' : Manager) (i : Nat) (b : Bool) (path : Nat) :
+    ltt (if b = true then
+        { m' with paths := setPath m'.paths i { m'.paths i with rtt := Rtt.onPersistentCongestion (m'.paths i).rtt } }
+      else m') path = ltt m' path := by
+  split
+  · simp only [ltt]
+    refine ltt_setPath_same m'.paths i _ ?_ path
+    exact ltt_onPersistentCongestion _
+  · rfl
+
+theorem ltt_lostOne (d c : Nat) (m : Manager) (p : SentInfo) (path : Nat) : ltt (lostOne d c m p) path = ltt m path := by
+  have h1 : ltt (if p.mtuProbe = true then subBif m p.pathId p.sentBytes
+      else if p.sentBytes > 0 then subBif m p.pathId p.sentBytes else m) path = ltt m path := by
+    split
+    · rw [ltt_subBif]
+    · split
+      · rw [ltt_subBif]
+      · rfl
+  simp only [lostOne]
+  generalize (if p.mtuProbe = true then subBif m p.pathId p.sentBytes
+      else if p.sentBytes > 0 then subBif m p.pathId p.sentBytes else m) = m1 at h1 ⊢
+  rw [ltt_pcTail, h1]
+
+theorem ltt_foldl_lostOne (d c : Nat) (L : List SentInfo) (path : Nat) : ∀ m : Manager,
+    ltt (L.foldl (lostOne d c) m) path = ltt m path := by
+  induction L with
+  | nil => intro m; rfl
+  | cons p ps ih => intro m; simp only [List.foldl_cons]; rw [ih, ltt_lostOne]
+
+theorem ltt_pvTail (m' : Manager) (i : Nat) (path : Nat) :
+    ltt (if (m'.paths i).peerValidated = true then
+        { m' with paths := setPath m'.paths i { m'.paths i with ptoBackoff := 1 } } else m') path = ltt m' path := by
+  split
+  · simp only [ltt]
+    refine ltt_setPath_same m'.paths i _ ?_ path
+    rfl
+  · rfl
+
+theorem ltt_ackOne (rx : Nat) (m : Manager) (p : SentInfo) (path : Nat) : ltt (ackOne rx m p) path = ltt m path := by
+  have h1 : ltt (if p.pathId = rx then m else if p.sentBytes > 0 then subBif m p.pathId p.sentBytes else m) path
+      = ltt m path := by
+    split
+    · rfl
+    · split
+      · rw [ltt_subBif]
+      · rfl
+  simp only [ackOne]
+  generalize (if p.pathId = rx then m else if p.sentBytes > 0 then subBif m p.pathId p.sentBytes else m) = m1 at h1 ⊢
+  rw [ltt_pvTail, h1]
+
+theorem ltt_foldl_ackOne (rx : Nat) (L : List SentInfo) (path : Nat) : ∀ m : Manager,
+    ltt (L.foldl (ackOne rx) m) path = ltt m path := by
+  induction L with
+  | nil => intro m; rfl
+  | cons p ps ih => intro m; simp only [List.foldl_cons]; rw [ih, ltt_ackOne]
+
 /-- bytes-in-flight invariant: no counter underflow so far and every path's counter equals the
     total size of its unresolved packets -/
 structure Inv (m : Manager) : Prop where
@@ -259,7 +342,8 @@ theorem detectWith_inv (m : Manager) (la now cur : Nat) (X : Nat → Nat) (hu : 
     (∀ path, cnt (detectWith m la now cur).1 path = X path + unresolvedBytes path (detectWith m la now cur).1.sent) ∧
     m.sent = (detectWith m la now cur).2 ++ (detectWith m la now cur).1.sent ∧
     (detectWith m la now cur).1.largestAcked = m.largestAcked ∧
-    (∀ p ∈ (detectWith m la now cur).2, isLost m la now p = true) := by
+    (∀ p ∈ (detectWith m la now cur).2, isLost m la now p = true) ∧
+    (∀ path, ltt (detectWith m la now cur).1 path = ltt m path) := by
   unfold detectWith
   simp only []
   generalize hlost : m.sent.takeWhile (isLost m la now) = lost
@@ -278,13 +362,16 @@ theorem detectWith_inv (m : Manager) (la now cur : Nat) (X : Nat → Nat) (hu : 
   obtain ⟨f1, f2⟩ := foldl_cnt (lostOne d cur) wLost (lostOne_cnt d cur) lost { m1 with sent := rest }
     (fun path => X path + unresolvedBytes path rest) (a3.trans hu) hcnt
   obtain ⟨g1, g2⟩ := foldl_lostOne_fields d cur lost { m1 with sent := rest }
-  refine ⟨f1, ?_, ?_, ?_, ?_⟩
+  refine ⟨f1, ?_, ?_, ?_, ?_, ?_⟩
   · intro path; rw [f2 path, g1]
   · rw [g1]; exact hsplit
   · rw [g2]; exact a4
   · intro p hp
     rw [← hlost] at hp
     exact mem_takeWhile_true _ _ _ hp
+  · intro path
+    rw [ltt_foldl_lostOne]
+    simp only [ltt, a2]
 
 theorem detect_inv (m : Manager) (now cur : Nat) (X : Nat → Nat) (hu : m.underflow = false)
     (h : ∀ path, cnt m path = X path + unresolvedBytes path m.sent) :
@@ -292,13 +379,14 @@ theorem detect_inv (m : Manager) (now cur : Nat) (X : Nat → Nat) (hu : m.under
     (∀ path, cnt (detectAndRemoveLost m now cur).1 path = X path + unresolvedBytes path (detectAndRemoveLost m now cur).1.sent) ∧
     m.sent = (detectAndRemoveLost m now cur).2 ++ (detectAndRemoveLost m now cur).1.sent ∧
     (detectAndRemoveLost m now cur).1.largestAcked = m.largestAcked ∧
-    (∀ p ∈ (detectAndRemoveLost m now cur).2, ∃ la, m.largestAcked = some la ∧ isLost m la now p = true) := by
+    (∀ p ∈ (detectAndRemoveLost m now cur).2, ∃ la, m.largestAcked = some la ∧ isLost m la now p = true) ∧
+    (∀ path, ltt (detectAndRemoveLost m now cur).1 path = ltt m path) := by
   rcases ho : m.largestAcked with _ | la
   · rw [detectAndRemoveLost_none m now cur ho]
-    exact ⟨hu, h, by simp, ho, by simp⟩
+    exact ⟨hu, h, by simp, ho, by simp, fun _ => rfl⟩
   · rw [detectAndRemoveLost_some m now cur la ho]
-    obtain ⟨b1, b2, b3, b4, b5⟩ := detectWith_inv { m with lossTimer := none } la now cur X hu h
-    exact ⟨b1, b2, b3, b4.trans ho, fun p hp => ⟨la, rfl, b5 p hp⟩⟩
+    obtain ⟨b1, b2, b3, b4, b5, b6⟩ := detectWith_inv { m with lossTimer := none } la now cur X hu h
+    exact ⟨b1, b2, b3, b4.trans ho, fun p hp => ⟨la, rfl, b5 p hp⟩, b6⟩
 
 
 theorem sum_wAck (rx path : Nat) (A : List SentInfo) :
@@ -317,14 +405,19 @@ theorem sum_wAck (rx path : Nat) (A : List SentInfo) :
         simp [h1, h2, this]
       · simp [h1, h2]
 
-/-- a packet declared lost by the manager: `loss::detect` said `Lost` for it, with the loss time
-    threshold of some RTT estimator state and the manager's largest acknowledged packet `la` -/
-def LostBy (la now : Nat) (p : SentInfo) : Prop :=
-  ∃ r : Rtt.RttEstimator,
-    Loss.detect (Rtt.lossTimeThreshold r) p.timeSent Loss.K_PACKET_THRESHOLD p.pn la now = some Loss.Outcome.lost
+/-- a packet declared lost by the manager: `loss::detect` said `Lost` for it, with the current
+    `loss_time_threshold()` of the RTT estimator of the path it was sent on (as of the end of the
+    operation: the threshold only changes with an RTT sample, which is taken before loss detection)
+    and the manager's largest acknowledged packet `la` -/
+def LostBy (m' : Manager) (la now : Nat) (p : SentInfo) : Prop :=
+  Loss.detect (Rtt.lossTimeThreshold (m'.paths p.pathId).rtt) p.timeSent Loss.K_PACKET_THRESHOLD p.pn la now
+    = some Loss.Outcome.lost
 
-theorem isLost_LostBy (m : Manager) (la now : Nat) (p : SentInfo) (h : isLost m la now p = true) : LostBy la now p := by
-  refine ⟨(m.paths p.pathId).rtt, ?_⟩
+theorem isLost_LostBy (m m' : Manager) (la now : Nat) (p : SentInfo) (h : isLost m la now p = true)
+    (hl : ∀ path, ltt m' path = ltt m path) : LostBy m' la now p := by
+  have := hl p.pathId
+  simp only [ltt] at this
+  simp only [LostBy, this]
   simpa [isLost] using h
 
 theorem updateLargestAcked_fields (m : Manager) (fl : Nat) :
@@ -355,13 +448,14 @@ theorem processNewAcked_spec (m : Manager) (A : List SentInfo) (now rx : Nat) (h
       (processNewAcked m A now rx).2 = { acked := A.map (·.pn), lost := lost.map (·.pn) } ∧
       m.sent = lost ++ (processNewAcked m A now rx).1.sent ∧
       (processNewAcked m A now rx).1.largestAcked = m.largestAcked ∧
-      (∀ p ∈ lost, ∃ la, m.largestAcked = some la ∧ LostBy la now p) := by
-  obtain ⟨d1, d2, d3, d4, d5⟩ := detect_inv m now rx (fun path => unresolvedBytes path A) hu hpre
+      (∀ p ∈ lost, ∃ la, m.largestAcked = some la ∧ isLost m la now p = true) ∧
+      (∀ path, ltt (processNewAcked m A now rx).1 path = ltt m path) := by
+  obtain ⟨d1, d2, d3, d4, d5, d6⟩ := detect_inv m now rx (fun path => unresolvedBytes path A) hu hpre
   unfold processNewAcked
   simp only []
-  generalize hdet : detectAndRemoveLost m now rx = det at d1 d2 d3 d4 d5
+  generalize hdet : detectAndRemoveLost m now rx = det at d1 d2 d3 d4 d5 d6
   obtain ⟨m4, lost⟩ := det
-  simp only [] at d1 d2 d3 d4 d5 ⊢
+  simp only [] at d1 d2 d3 d4 d5 d6 ⊢
   have hpre2 : ∀ path, cnt m4 path =
       (unresolvedBytes path m4.sent + (if path = rx then unresolvedBytes rx A else 0)) +
         (A.map (fun p => wAck rx p path)).sum := by
@@ -378,13 +472,18 @@ theorem processNewAcked_spec (m : Manager) (A : List SentInfo) (now rx : Nat) (h
   rw [sumBytes_filter_path rx A]
   have h6c : ∀ path, cnt m6 path = unresolvedBytes path m4.sent + (if path = rx then unresolvedBytes rx A else 0) := by
     intro path; simp only [cnt, u2]; exact e2 path
+  have h6l : ∀ path, ltt m6 path = ltt m path := by
+    intro path
+    have : ltt m6 path = ltt m5 path := by simp only [ltt, u2]
+    rw [this, ← hm5, ltt_foldl_ackOne]; exact d6 path
   have hfinal : Inv (if unresolvedBytes rx A > 0 then subBif m6 rx (unresolvedBytes rx A) else m6) ∧
       (if unresolvedBytes rx A > 0 then subBif m6 rx (unresolvedBytes rx A) else m6).sent = m4.sent ∧
-      (if unresolvedBytes rx A > 0 then subBif m6 rx (unresolvedBytes rx A) else m6).largestAcked = m4.largestAcked := by
+      (if unresolvedBytes rx A > 0 then subBif m6 rx (unresolvedBytes rx A) else m6).largestAcked = m4.largestAcked ∧
+      (∀ path, ltt (if unresolvedBytes rx A > 0 then subBif m6 rx (unresolvedBytes rx A) else m6) path = ltt m path) := by
     split
     · have hb : unresolvedBytes rx A ≤ cnt m6 rx := by rw [h6c rx]; simp
       obtain ⟨s1, s2, s3⟩ := subBif_ok m6 rx _ hb
-      refine ⟨⟨by rw [s2, u3]; exact e1, fun path => ?_⟩, by rw [s3, u1, e3], ?_⟩
+      refine ⟨⟨by rw [s2, u3]; exact e1, fun path => ?_⟩, by rw [s3, u1, e3], ?_, fun path => by rw [ltt_subBif]; exact h6l path⟩
       · rw [s1 path, h6c path, s3, u1, e3]
         by_cases hp : path = rx
         · subst hp; simp
@@ -394,13 +493,10 @@ theorem processNewAcked_spec (m : Manager) (A : List SentInfo) (now rx : Nat) (h
         simp only [subBif, hb, if_true]; rw [u4, e4]
     · rename_i hz
       have hz' : unresolvedBytes rx A = 0 := by omega
-      refine ⟨⟨by rw [u3]; exact e1, fun path => ?_⟩, by rw [u1, e3], by rw [u4, e4]⟩
+      refine ⟨⟨by rw [u3]; exact e1, fun path => ?_⟩, by rw [u1, e3], by rw [u4, e4], h6l⟩
       rw [h6c path, u1, e3, hz']; simp
-  obtain ⟨f1, f2, f3⟩ := hfinal
-  refine ⟨f1, lost, rfl, by rw [f2]; exact d3, by rw [f3]; exact d4, ?_⟩
-  intro p hp
-  obtain ⟨la, hla, hl⟩ := d5 p hp
-  exact ⟨la, hla, isLost_LostBy m la now p hl⟩
+  obtain ⟨f1, f2, f3, f4⟩ := hfinal
+  exact ⟨f1, lost, rfl, by rw [f2]; exact d3, by rw [f3]; exact d4, d5, f4⟩
 
 /-- specification of one `process_acks` call -/
 theorem processAcks_spec (m : Manager) (ranges : List (Nat × Nat)) (d now rx : Nat) (hinv : Inv m) :
@@ -409,7 +505,8 @@ theorem processAcks_spec (m : Manager) (ranges : List (Nat × Nat)) (d now rx : 
       (processAcks m ranges d now rx).2 = { acked := A.map (·.pn), lost := lost.map (·.pn) } ∧
       (A ++ (lost ++ (processAcks m ranges d now rx).1.sent)).Perm m.sent ∧
       (∀ p ∈ A, inRanges ranges p.pn = true) ∧
-      (∀ p ∈ lost, ∃ la, (processAcks m ranges d now rx).1.largestAcked = some la ∧ LostBy la now p) := by
+      (∀ p ∈ lost, ∃ la, (processAcks m ranges d now rx).1.largestAcked = some la ∧
+        LostBy (processAcks m ranges d now rx).1 la now p) := by
   obtain ⟨hu, hex⟩ := hinv
   unfold processAcks
   simp only []
@@ -441,13 +538,13 @@ theorem processAcks_spec (m : Manager) (ranges : List (Nat × Nat)) (d now rx : 
       intro path
       have e : cnt m2 path = cnt m path := by simp only [cnt, h2p]
       rw [h3c path, e, hex path, hsplit path, h3s, h2s]
-    obtain ⟨f1, lost, f2, f3, f4, f5⟩ := processNewAcked_spec m3 A now rx (by rw [h3u, h2u]; exact hu) hpre
+    obtain ⟨f1, lost, f2, f3, f4, f5, f6⟩ := processNewAcked_spec m3 A now rx (by rw [h3u, h2u]; exact hu) hpre
     refine ⟨f1, A, lost, f2, ?_, hAin, ?_⟩
     · have : R = lost ++ (processNewAcked m3 A now rx).1.sent := by rw [← f3, h3s, h2s]
       rw [← this]; exact hperm
     · intro p hp
       obtain ⟨la, hla, hl⟩ := f5 p hp
-      exact ⟨la, by rw [f4]; exact hla, hl⟩
+      exact ⟨la, by rw [f4]; exact hla, isLost_LostBy m3 _ la now p hl f6⟩
 
 
 /-! ### the ghost `nextPn` is only written by `on_packet_sent` -/
@@ -555,14 +652,14 @@ theorem onLossTimeout_spec (m : Manager) (now : Nat) (hinv : Inv m) :
     Inv (onLossTimeout m now).1 ∧
     ∃ lost : List SentInfo,
       (onLossTimeout m now).2 = { lost := lost.map (·.pn) } ∧ m.sent = lost ++ (onLossTimeout m now).1.sent ∧
-      (∀ p ∈ lost, ∃ la, (onLossTimeout m now).1.largestAcked = some la ∧ LostBy la now p) := by
+      (∀ p ∈ lost, ∃ la, (onLossTimeout m now).1.largestAcked = some la ∧ LostBy (onLossTimeout m now).1 la now p) := by
   obtain ⟨hu, hex⟩ := hinv
-  obtain ⟨d1, d2, d3, d4, d5⟩ := detect_inv { m with lossTimer := none } now m.activePath (fun _ => 0) hu
+  obtain ⟨d1, d2, d3, d4, d5, d6⟩ := detect_inv { m with lossTimer := none } now m.activePath (fun _ => 0) hu
     (fun path => by simpa [cnt] using hex path)
   simp only [onLossTimeout]
-  generalize detectAndRemoveLost { m with lossTimer := none } now m.activePath = det at d1 d2 d3 d4 d5
+  generalize detectAndRemoveLost { m with lossTimer := none } now m.activePath = det at d1 d2 d3 d4 d5 d6
   obtain ⟨m4, lost⟩ := det
-  simp only [] at d1 d2 d3 d4 d5 ⊢
+  simp only [] at d1 d2 d3 d4 d5 d6 ⊢
   obtain ⟨u1, u2, u3, u4⟩ := updatePtoTimer_fields m4 now
   refine ⟨⟨by rw [u3]; exact d1, fun path => ?_⟩, lost, rfl, by rw [u1]; exact d3, ?_⟩
   · have := d2 path
@@ -570,7 +667,9 @@ theorem onLossTimeout_spec (m : Manager) (now : Nat) (hinv : Inv m) :
     omega
   · intro p hp
     obtain ⟨la, hla, hl⟩ := d5 p hp
-    exact ⟨la, by rw [u4, d4]; exact hla, isLost_LostBy _ la now p hl⟩
+    refine ⟨la, by rw [u4, d4]; exact hla, isLost_LostBy _ _ la now p hl (fun path => ?_)⟩
+    have : ltt (updatePtoTimer m4 now) path = ltt m4 path := by simp only [ltt, u2]
+    rw [this]; exact d6 path
 
 
 /-! ### one operation -/
@@ -580,7 +679,7 @@ structure StepOk (m : Manager) (op : Op) (m' : Manager) (out : Out) : Prop where
   inv : Inv m'
   perm : (out.acked ++ (out.lost ++ (out.discarded ++ m'.sent.map (·.pn)))).Perm (m.sent.map (·.pn) ++ out.sent)
   lost : ∀ pn ∈ out.lost, ∃ p ∈ m.sent, p.pn = pn ∧
-    ∃ la now, op.now? = some now ∧ m'.largestAcked = some la ∧ LostBy la now p
+    ∃ la now, op.now? = some now ∧ m'.largestAcked = some la ∧ LostBy m' la now p
   sentNew : out.sent = [] ∧ m'.nextPn = m.nextPn ∨
     ∃ pn, out.sent = [pn] ∧ m'.nextPn = pn + 1 ∧ m.nextPn ≤ pn
   sub : ∀ p ∈ m'.sent, p ∈ m.sent ∨ (p.congestionControlled = false → p.sentBytes = 0)
